@@ -225,7 +225,10 @@ def tlc(module, cfg, wd, workers=None, xmx="4g", extra=(), env=None, timeout=180
     if r.parse_error or to or (rc not in (0, 10, 11, 12, 13) and not r.ok and not r.invariant):
         # 12 = safety violation, 13 = liveness violation, 10 = assumption/postcondition, 11 = deadlock
         brief = "\n".join(l for l in out.splitlines() if not l.startswith(("Parsing file", "Semantic processing")))
-        raise ToolError("TLC failed on %s/%s rc=%s timeout=%s\n%s" % (module, cfg, rc, to, brief[-3000:]))
+        lines = brief.splitlines()
+        first = next((i for i, l in enumerate(lines) if l.startswith("Error:")), None)
+        head = "\n".join(lines[first:first + 25]) if first is not None else ""
+        raise ToolError("TLC failed on %s/%s rc=%s timeout=%s\n%s\n...\n%s" % (module, cfg, rc, to, head[:3000], brief[-1500:]))
     return r
 
 
